@@ -278,6 +278,7 @@ func (e *Engine) step(st *State, fr *Frame, ins ssa.Instruction) {
 		e.nilCheck(st, fr, p, x.Pos(), ins)
 		e.lockCheckAddr(st, fr, p, true, x.Pos(), ins)
 		e.storePtr(st, p, v)
+		e.storeHook(st, fr, x, v)
 	case *ssa.UnOp:
 		e.execUnOp(st, fr, x)
 	case *ssa.BinOp:
@@ -773,10 +774,16 @@ func convInt(term string, from, to types.Type) string {
 }
 
 func (e *Engine) bytesToString(st *State, v Val, to types.Type) Val {
-	n := st.freshConst("str", "Str")
+	// string(b) is the application of an uninterpreted function to (backing row, offset, length): equal headers over
+	// equal rows give equal strings by congruence; the defining axiom gives length and contents
 	et := v.T.Underlying().(*types.Slice).Elem()
 	hn, hs := elemHeapName(et)
 	h := st.heap(hn, hs)
+	fn := "content!" + tkey(et)
+	reg.declareFun(fn, []string{fmt.Sprintf("(Array Int %s)", sortOf(et)), "Int", "Int"}, "Str")
+	app := fmt.Sprintf("(%s (select %s %s) %s %s)", fn, h, slRef(v.S), slOff(v.S), slLen(v.S))
+	n := st.freshConst("str", "Str")
+	st.assume(eq(n, app))
 	st.assume(eq(strLen(n), slLen(v.S)))
 	st.assume(fmt.Sprintf("(forall ((i Int)) (! (= (select %s i) (ite (and (<= 0 i) (< i %s)) (select (select %s %s) (+ %s i)) 0)) :pattern ((select %s i))))",
 		strArr(n), slLen(v.S), h, slRef(v.S), slOff(v.S), strArr(n)))
@@ -859,6 +866,18 @@ func (e *Engine) branch(st *State, fr *Frame, cond string) {
 	case "false":
 		e.gotoBlock(st, fr, fb)
 		return
+	}
+	// syntactic pruning: the same test was already decided on this path
+	nc := not(cond)
+	for i := len(st.pc) - 1; i >= 0 && i >= len(st.pc)-400; i-- {
+		if st.pc[i] == cond {
+			e.gotoBlock(st, fr, tb)
+			return
+		}
+		if st.pc[i] == nc {
+			e.gotoBlock(st, fr, fb)
+			return
+		}
 	}
 	other := e.fork(st)
 	if other != nil {
@@ -1053,10 +1072,15 @@ func (e *Engine) execLookup(st *State, fr *Frame, x *ssa.Lookup) {
 			st.assume(implies(present, fmt.Sprintf("(<= %s %s)", sel(vals, k.S), st.heap("$alloc", "Int"))))
 		}
 	}
+	// name the results: lookups are re-used many times and their terms contain ite
+	nv := st.freshConst("lk", sortOf(vt))
+	st.assume(eq(nv, v))
 	if x.CommaOk {
-		fr.regs[x] = Val{T: x.Type(), Tup: []Val{{S: v, T: vt}, {S: present, T: types.Typ[types.Bool]}}}
+		np := st.freshConst("lkok", "Bool")
+		st.assume(eq(np, present))
+		fr.regs[x] = Val{T: x.Type(), Tup: []Val{{S: nv, T: vt}, {S: np, T: types.Typ[types.Bool]}}}
 	} else {
-		fr.regs[x] = Val{S: v, T: vt}
+		fr.regs[x] = Val{S: nv, T: vt}
 	}
 }
 
@@ -1089,7 +1113,8 @@ func (e *Engine) mapDelete(st *State, mt *types.Map, m, k string) {
 
 func (e *Engine) mapLen(st *State, mt *types.Map, m string) string {
 	dn, _, ds, _, ks := mapHeapNames(mt)
-	dom := sel(st.heap(dn, ds), m)
+	dom := st.freshConst("lendom", fmt.Sprintf("(Array %s Bool)", ks))
+	st.assume(eq(dom, sel(st.heap(dn, ds), m)))
 	card := cardFun(ks)
 	st.assume(fmt.Sprintf("(>= (%s %s) 0)", card, dom))
 	st.assume(fmt.Sprintf("(=> (= (%s %s) 0) (forall ((k %s)) (! (not (select %s k)) :pattern ((select %s k)))))", card, dom, ks, dom, dom))
